@@ -377,6 +377,11 @@ func run() int {
 	}
 	sort.Strings(mods)
 
+	if old, _ := filepath.Glob(filepath.Join(*flagVerif, "replays", *flagProp+"-*.json")); runRe == nil {
+		for _, f := range old {
+			os.Remove(f)
+		}
+	}
 	res := &results{prop: *flagProp, tier: *flagTier, seed: seed, start: t0}
 	exit := 0
 	for _, mod := range mods {
